@@ -61,7 +61,7 @@ impl<'a> G<'a> {
     }
 
     fn int(&mut self, d: u32) -> String {
-        let top = if d == 0 { 4 } else { 24 };
+        let top = if d == 0 { 4 } else { 27 };
         for _ in 0..4 {
             match self.p.below(top) {
                 0 => return format!("{}", self.p.range(0, 9)),
@@ -206,6 +206,31 @@ impl<'a> G<'a> {
                     let b = self.int(d - 1);
                     return format!("(match {st} {{ \"a\" => {a}, _ => {b} }})");
                 }
+                23 => {
+                    // bait for constant folding: the effectful operand must survive
+                    let a = self.int(d - 1);
+                    return match self.p.below(5) {
+                        0 => format!("({a} * 0)"),
+                        1 => format!("(0 * {a})"),
+                        2 => format!("({a} + 0)"),
+                        3 => format!("({a} - 0)"),
+                        _ => format!("(0 - {a})"),
+                    };
+                }
+                24 => {
+                    let a = self.int(d - 1);
+                    let b = self.int(d - 1);
+                    return if self.p.chance(1, 2) {
+                        format!("(if true {{ {a} }} else {{ {b} }})")
+                    } else {
+                        format!("(if false {{ {a} }} else {{ {b} }})")
+                    };
+                }
+                25 => {
+                    let st = self.string(d - 1);
+                    let idx = if self.cfg.failing_ops && self.p.chance(1, 3) { self.int(d - 1) } else { "0".to_string() };
+                    return format!("string_len(string_get(({st} + \"k\"), {idx}))");
+                }
                 _ => {
                     let a = self.int(d - 1);
                     let b = self.int(d - 1);
@@ -248,7 +273,7 @@ impl<'a> G<'a> {
     }
 
     fn boolean(&mut self, d: u32) -> String {
-        let top = if d == 0 { 2 } else { 7 };
+        let top = if d == 0 { 2 } else { 8 };
         if self.cfg.failing_ops && d > 0 && !self.ints.is_empty() && self.p.chance(1, 4) {
             // a guard whose right operand is call-free but can fail: `v != 0 && n / v > k`
             let v = self.ints[self.p.usize(self.ints.len())].clone();
@@ -288,6 +313,18 @@ impl<'a> G<'a> {
                 let a = self.int(d - 1);
                 let b = self.int(d - 1);
                 format!("({a} == {b})")
+            }
+            6 => {
+                // constant operands: the other operand is evaluated (or not) as written
+                let a = self.boolean(d - 1);
+                match self.p.below(6) {
+                    0 => format!("({a} && false)"),
+                    1 => format!("(false && {a})"),
+                    2 => format!("({a} || true)"),
+                    3 => format!("(true || {a})"),
+                    4 => format!("(true && {a})"),
+                    _ => format!("(false || {a})"),
+                }
             }
             _ => {
                 let a = self.int(d - 1);
